@@ -130,7 +130,7 @@ def modelCte (cte : List Key) (nm : Tok) : Bool :=
 /-- what follows a bare name: not (blanks then) `.` or `(` -/
 def nextOK : List Item → Bool
   | .tok (.p c) :: _ => !(c == '.' || c == '(')
-  | .tok (.s sp) :: .tok (.p c) :: _ => !((sp.dropWhile fun c => c == ' ' || c == '\t').isEmpty && (c == '.' || c == '('))
+  | .tok (.s sp) :: .tok (.p c) :: _ => !((sp.dropWhile blank4).isEmpty && (c == '.' || c == '('))
   | .tok (.s _) :: .tok (.s _) :: _ => false   -- runs are merged
   | _ => true
 
@@ -149,7 +149,7 @@ def carveL (hdr : Option Str) (cte : List Key) : List Item → Bool
   | .notRef _ _ _ :: _ => false
 
 /-- the CTE registry the code builds for this statement -/
-def cteOf (_hdr : Option Str) (s : List Tok) : List Key := cteScan 0 s
+def cteOf (_hdr : Option Str) (s : List Tok) : List Key := cteReg s
 
 def Carve (hdr : Option Str) (q : List Item) : Bool := carveL hdr (cteOf hdr (flat q)) q
 
